@@ -46,13 +46,10 @@ Proof. unfold host_recover_mutates. apply N.leb_le. Qed.
 (* evaluated witness: r = n + 0x11261c31b1eaa8223a7ead919ccb36a9 *)
 Definition v1w_msg := be_bytes 32 0x74014f9ab8a85b96e8666f76ab2ce65a61d88c95ecebd03dd125ccb24674665d.
 Definition v1w_sig := be_bytes 65 0xfffffffffffffffffffffffffffffffecbd4f9186133485dfa510c1e6d0177ea7911e9b50271a8e39adaf8f1da7663ef03808646be8f39be6545f4a0e7b2d2e901.
-Definition v1w : bool :=
-  host_recover_v1_guard v1w_sig
-  && match substrate_recover_v1 v1w_msg v1w_sig with
-     | Some q => bytes_eqb (serialize_compressed q)
-                   (be_bytes 33 0x021937eeed0727721a4ef04db430f1edabd40ca8d818993cf6ea6319a22aea83eb)
-     | None => false end
-  && match substrate_recover_v2 v1w_msg v1w_sig with None => true | Some _ => false end
-  && match host_recover_compressed v1w_msg v1w_sig with None => true | Some _ => false end.
-Lemma v1w_true : v1w = true.
+Definition v1w_key := be_bytes 33 0x021937eeed0727721a4ef04db430f1edabd40ca8d818993cf6ea6319a22aea83eb.
+Lemma v1w_guard : host_recover_v1_guard v1w_sig = true.
 Proof. vm_cast_no_check (eq_refl true). Qed.
+Lemma v1w_v1 : option_map serialize_compressed (substrate_recover_v1 v1w_msg v1w_sig) = Some v1w_key.
+Proof. vm_cast_no_check (eq_refl (Some v1w_key)). Qed.
+Lemma v1w_v2 : substrate_recover_v2 v1w_msg v1w_sig = None.
+Proof. vm_cast_no_check (eq_refl (@None (Z * Z))). Qed.
